@@ -171,3 +171,15 @@ def _reduce_registered(obj):
 
 
 copyreg.pickle(Registered, _reduce_registered)
+
+
+class RegisteredSub(Registered):
+    """a subclass of a copyreg-registered class: the registration is for the exact type only (as in pickle)"""
+
+    def __init__(self, key, extra=None):
+        Registered.__init__(self, key)
+        self.extra = extra
+
+
+class ComplexSub(complex):
+    """complex is registered in copyreg.dispatch_table; its subclasses are not"""
